@@ -162,6 +162,9 @@ def mc_derived(chk, prop, tier):
     res["cfg"] = cfg
     chk.add_mc(res, "%s: model of the derived constructor satisfies the Derived.tla clauses in every reachable state"
                % ",".join(DERIVED_INVS[prop]))
+    if prop == "C16":
+        res = tlc.run_mc("MC_derived_acc.cfg", "MC_derived.tla", workers=8, timeout=3000)
+        chk.add_mc(res, "InvConvert on removal-enabled and accumulative sources (the presence clause answers KF8 for the latter)")
 
 
 def run(prop, tier, seed):
